@@ -75,8 +75,19 @@ def cover_walks(edges, maxlen=120):
     return walks, {"graph_states": len(parent), "graph_edges": len(E), "reachable_edges": reach, "edges_covered": ncov, "paths": len(walks), "steps": sum(len(w) for w in walks)}
 
 
+REFL = ["refl"]      # name of the harness binary in use (refl, or refl_np = compiled with -DVERIF_NO_PRIVATE)
+
+
+def build_refl():
+    """harness/refl.cpp touches no private member of the library; should a later version do so, it must guard that with
+    #ifndef VERIF_NO_PRIVATE - the fallback build then keeps every property-level oracle running."""
+    name, private_ok = vlib.make_with_fallback("plain", "refl")
+    REFL[0] = name
+    return private_ok
+
+
 def run_refl(args, timeout):
-    rc, out, err = vlib.run([vlib.binpath("plain", "refl")] + [str(a) for a in args], timeout=timeout)
+    rc, out, err = vlib.run([vlib.binpath("plain", REFL[0])] + [str(a) for a in args], timeout=timeout)
     if rc != 0: raise vlib.MachineryError("refl %s failed rc=%s: %s %s" % (args[0], rc, out[-500:], err[-1500:]))
 
 
